@@ -61,6 +61,20 @@ def pascal(s):
     return out
 
 
+def kebab(s):
+    """kebab-case of a snake / camel / Pascal case identifier: a dash in front of every capital
+    (except at the start) and instead of every underscore, all lower case"""
+    out = ''
+    for ch in s:
+        if ch.isupper() and out:
+            out += '-'
+        if ch in '_-':
+            out += '-'
+        else:
+            out += ch.lower()
+    return out
+
+
 class G:
     def __init__(self, seed):
         self.r = random.Random(seed)
@@ -242,17 +256,20 @@ class G:
             o.append('#[derive(Debug, Clone, PartialEq, SerializeDict, DeserializeDict, Type' + (', Value, OwnedValue' if value else '') + ')]')
             o.append('#[zvariant(signature = "dict"' + (f', rename_all = "{rename}"' if rename else '') + ')]')
             o.append(f'pub struct {name} {{')
+            # field identifiers in several styles (the key is the identifier as written unless
+            # rename_all says otherwise; the renaming rules are the documented serde-like ones)
+            idents = [r.choice([f'field_{k}', f'field_{k}', f'Field{k}', f'fieldName{k}', f'LoopStatus{k}', f'x{k}']) for k in range(len(fs))]
             for k, ((t, s), opt) in enumerate(fs):
-                o.append(f'    pub field_{k}: ' + (f'Option<{t}>' if opt else t) + ',')
+                o.append(f'    pub {idents[k]}: ' + (f'Option<{t}>' if opt else t) + ',')
             o.append('}')
-            o.append(f'impl Gen for {name} {{ fn gen(src: &mut Src, fuel: &mut u32) -> Self {{ {name} {{ ' + ', '.join(f'field_{k}: Gen::gen(src, fuel)' for k in range(len(fs))) + ' } } }')
+            o.append(f'impl Gen for {name} {{ fn gen(src: &mut Src, fuel: &mut u32) -> Self {{ {name} {{ ' + ', '.join(f'{idents[k]}: Gen::gen(src, fuel)' for k in range(len(fs))) + ' } } }')
             ent = []
             for k, ((t, s), opt) in enumerate(fs):
-                key = {None: f'field_{k}', 'PascalCase': f'Field{k}', 'kebab-case': f'field-{k}'}[rename]
+                key = {None: idents[k], 'PascalCase': pascal(idents[k]), 'kebab-case': kebab(idents[k])}[rename]
                 if opt:
-                    ent.append(f'if let Some(x) = &self.field_{k} {{ e.push((RVal::S("{key}".into()), RVal::V(Box::new((<{t} as ToR>::rsig(), x.to_r()))))); }}')
+                    ent.append(f'if let Some(x) = &self.{idents[k]} {{ e.push((RVal::S("{key}".into()), RVal::V(Box::new((<{t} as ToR>::rsig(), x.to_r()))))); }}')
                 else:
-                    ent.append(f'e.push((RVal::S("{key}".into()), RVal::V(Box::new((<{t} as ToR>::rsig(), self.field_{k}.to_r())))));')
+                    ent.append(f'e.push((RVal::S("{key}".into()), RVal::V(Box::new((<{t} as ToR>::rsig(), self.{idents[k]}.to_r())))));')
             o.append(f'impl ToR for {name} {{ fn rsig() -> RSig {{ RSig::Dict(Box::new(RSig::S), Box::new(RSig::V)) }} fn to_r(&self) -> RVal {{ let mut e = vec![]; ' + ' '.join(ent) + ' RVal::Dict(RSig::S, RSig::V, e) } }')
             sig = 'a{sv}'
             nest = 1
